@@ -103,9 +103,9 @@ pub fn class_of(op: &Operation, tys: &[Option<IrType>], args: &[&Ent]) -> String
             Some(IrType::BigUint(w)) => {
                 // limbs of 96 bits = 12 bytes each
                 let limb_bytes = (w.max(1).div_ceil(96) * 12) as usize;
-                format!("BigUint:{}", if *n > limb_bytes { "n>limb-bytes" } else { "n<=limb-bytes" })
+                format!("BigUint:{}", if *n > limb_bytes { "n>limb-bytes" } else if *n == 0 { "n=0" } else { "n<=limb-bytes" })
             }
-            Some(IrType::Native) => format!("Native:{}", if *n > 32 { "n>32" } else { "n<=32" }),
+            Some(IrType::Native) => format!("Native:{}", if *n > 32 { "n>32" } else if *n == 0 { "n=0" } else { "n<=32" }),
             Some(IrType::JubjubPoint) => format!("JubjubPoint:{}", if *n == 32 { "n=32" } else { "n!=32" }),
             _ => base(),
         },
@@ -121,6 +121,8 @@ pub fn class_of(op: &Operation, tys: &[Option<IrType>], args: &[&Ent]) -> String
                 Some(IrType::Bytes(l)) => match t {
                     IrType::BigUint(n) => format!("Bytes:{}", if (*n as usize) < 8 * l { "8len>n" } else { "8len<=n" }),
                     IrType::JubjubPoint => format!("Bytes:{}", if l == 32 { "len=32" } else { "len!=32" }),
+                    IrType::JubjubScalar => format!("Bytes:{}", if l >= 32 { "len>=32" } else if l == 0 { "len=0" } else { "len<32" }),
+                    IrType::Native => format!("Bytes:{}", if l >= 32 { "len>=32" } else { "len<32" }),
                     _ => "Bytes".to_string(),
                 },
                 _ => base(),
